@@ -329,6 +329,43 @@ CORPUS = {
 }
 
 
+
+# variants derived from the rules added after the sub-agents' seeded changes -----------------------------------
+CORPUS["C01"] += [
+    B("loop over terminals stops at the first unchanged terminal", "R01.4", (SOLVER, "            if current_density != terminal_current_densities[terminal.name]:\n                terminal_current_densities[terminal.name] = current_density\n                self.mu_boundary[terminal.boundary_edge_indices] = current_density", "            if current_density == terminal_current_densities[terminal.name]:\n                break\n            terminal_current_densities[terminal.name] = current_density\n            self.mu_boundary[terminal.boundary_edge_indices] = current_density")),
+    B("cache updated but boundary value not written", "R01.4", (SOLVER, "                self.mu_boundary[terminal.boundary_edge_indices] = current_density\n", "                pass\n")),
+    E("change test spelled with == and continue", (SOLVER, "            if current_density != terminal_current_densities[terminal.name]:\n                terminal_current_densities[terminal.name] = current_density\n                self.mu_boundary[terminal.boundary_edge_indices] = current_density", "            if current_density == terminal_current_densities[terminal.name]:\n                continue\n            terminal_current_densities[terminal.name] = current_density\n            self.mu_boundary[terminal.boundary_edge_indices] = current_density")),
+]
+CORPUS["C10"] += [
+    B("baseline only updated for static potentials", "R10.5", (SOLVER, "        self.current_A_applied = current_A_applied\n\n        # Update the value of epsilon", "            self.current_A_applied = current_A_applied\n\n        # Update the value of epsilon")),
+    B("screening refresh moved behind the psi update", "R10.6", (SOLVER, "            if options.include_screening:\n                # Update the link variables in the covariant Laplacian and gradient\n                # for psi based on the induced vector potential from the previous iteration.\n                operators.set_link_exponents(current_A_applied + A_induced)\n", ""), (SOLVER, "            # Update the scalar potential, supercurrent density, and normal current density\n", "            if options.include_screening:\n                operators.set_link_exponents(current_A_applied + A_induced)\n            # Update the scalar potential, supercurrent density, and normal current density\n")),
+]
+CORPUS["C13"] += [
+    B("screening loop bounded by range()", "R13.5", (SOLVER, "for screening_iteration in itertools.count():", "for screening_iteration in range(options.max_iterations_per_step + 1):")),
+    B("screening sees only the supercurrent", "R13.3", (SOLVER, "supercurrent + normal_current, A_induced_vals, velocity", "supercurrent, A_induced_vals, velocity")),
+]
+CORPUS["C14"] += [
+    B("Layer reader defaults falsy stored values", "R14.7", (LAYER, "            if key in h5_group.attrs:\n                return h5_group.attrs[key]\n            return default", "            return h5_group.attrs.get(key) or default")),
+    B("Device equality through a truncating zip", "R14.8", (DEVICE, "            return sorted(seq1, key=key) == sorted(seq2, key=key)", "            return all(a == b for a, b in zip(sorted(seq1, key=key), sorted(seq2, key=key)))")),
+    E("Device equality through zip with a length test", (DEVICE, "            return sorted(seq1, key=key) == sorted(seq2, key=key)", "            return len(seq1) == len(seq2) and all(a == b for a, b in zip(sorted(seq1, key=key), sorted(seq2, key=key)))")),
+]
+CORPUS["C19"] += [
+    B("seed-device guard weakened by a truncating zip in Device.__eq__", "R19.3", (DEVICE, "            return sorted(seq1, key=key) == sorted(seq2, key=key)", "            return all(a == b for a, b in zip(sorted(seq1, key=key), sorted(seq2, key=key)))")),
+]
+CORPUS["C16"] += [
+    B("cache key ignores z", "R16.8", (PARAM, "            + hashlib.sha1(np.ascontiguousarray(z)).hexdigest()\n", "            + hashlib.sha1(np.ascontiguousarray(y)).hexdigest()\n")),
+    B("cache key ignores t", "R16.8", (PARAM, "            + hex(hash(t))\n", "")),
+]
+CORPUS["C20"] += [
+    B("current densities scaled in place", "R20.8", (EM, "    current_densities = current_densities * to_amp_per_meter", "    current_densities *= to_amp_per_meter")),
+    B("evaluation positions scaled in place in the loop potential", "R20.8", (EM, "    positions = np.atleast_2d(positions) * to_meter\n    loop_center = np.atleast_2d(loop_center) * to_meter\n    a = loop_radius * to_meter", "    positions = np.atleast_2d(positions)\n    positions *= to_meter\n    loop_center = np.atleast_2d(loop_center) * to_meter\n    a = loop_radius * to_meter")),
+    E("shift of a fresh copy done in place", (EM, "    positions = positions - loop_center\n    # # This is a pint-friendly", "    positions -= loop_center\n    # # This is a pint-friendly")),
+]
+CORPUS["C07"] += [
+    B("corner triangle through the signed triangle_areas helper", "R07.4", (UTIL, "            triangle_area, is_convex = get_convex_polygon_area(\n                np.concatenate([midpoints, [sites[site]]], axis=0)\n            )\n            assert is_convex  # This is just a triangle, so it must be convex.\n            areas[site] -= triangle_area", "            corner = np.array([midpoints[0], sites[site], midpoints[1]])\n            areas[site] -= triangle_areas(corner, np.array([[0, 1, 2]]))[0]")),
+    E("corner triangle through abs of the signed helper", (UTIL, "            triangle_area, is_convex = get_convex_polygon_area(\n                np.concatenate([midpoints, [sites[site]]], axis=0)\n            )\n            assert is_convex  # This is just a triangle, so it must be convex.\n            areas[site] -= triangle_area", "            corner = np.array([midpoints[0], sites[site], midpoints[1]])\n            areas[site] -= abs(triangle_areas(corner, np.array([[0, 1, 2]]))[0])")),
+]
+
 # ---------------------------------------------------------------------------
 # generic behaviour-preserving transformations of the anchor functions
 # ---------------------------------------------------------------------------
